@@ -92,16 +92,16 @@ End Win.
 (* ================================================================ the Windows emitter
    Everything about ReadDirectoryChangesW ([win_kernel]) is modelled from the documentation and
    cannot be validated in this sandbox. *)
-Require WD.Base.BStr WD.Model.SubEvents WD.Model.PlatFs WD.Model.WinEmitter WD.Proofs.WinEmitterProofs WD.Proofs.WinReplayProofs.
+Require WD.Base.BStr WD.Model.SubEvents WD.Model.PlatFs WD.Model.WinEmitter WD.Proofs.WinEmitterProofs WD.Proofs.WinReplayProofs WD.Proofs.WinFlavourProofs WD.Proofs.PlatFsProofs.
 Require Import Coq.Sorting.Permutation.
 
 Module WinEmit.
-Import WD.Base.BStr WD.Model.SubEvents WD.Model.PlatFs WD.Model.WinEmitter WD.Proofs.WinEmitterProofs WD.Proofs.WinReplayProofs.
+Import WD.Base.BStr WD.Model.SubEvents WD.Model.PlatFs WD.Proofs.PlatFsProofs WD.Model.WinEmitter WD.Proofs.WinEmitterProofs WD.Proofs.WinReplayProofs WD.Proofs.WinFlavourProofs.
 
 (* Contract.  For every tree, every operation of the alphabet that succeeds in it (names valid, any
    depth), recursive or not: feeding the notifications the simulator renders for that one operation to
-   WindowsApiEmitter.queue_events - whose os.path.isdir / os.walk look-ups answer according to the tree
-   *after* the operation - queues exactly the contract: a rename inside the tree is one moved event with
+   WindowsApiEmitter.queue_events - whose os.path.isdir look-ups answer, on the paths the operation names, according to the tree
+   *after* the operation (and os.walk lists that tree) - queues exactly the contract: a rename inside the tree is one moved event with
    both paths, followed (recursive watch, directory) by one synthetic moved event per descendant in
    os.walk order with the same relative path under both names; a move in is one created event (+ one
    synthetic created event per descendant); a move out is one deleted event (of the File flavour: F11);
@@ -112,7 +112,7 @@ Theorem C20_win_contract :
   (forall p, walk (abspath root p) = sub p) -> (forall p, wf_tree (sub p) = true) ->
   forall (before : fs) (o : op) (last : bytes), op_names_ok o = true -> op_ok before o = true ->
   let after := apply_op before o in
-  (forall p, isdir (abspath root p) = fs_isdir after p) ->
+  (forall p, In p (op_paths o) -> isdir (abspath root p) = fs_isdir after p) ->
   queue_events isdir walk recursive root last (map render_native (win_kernel o))
   = (map (render root) (win_contract sub recursive after o), state_after root last o, false).
 Proof. exact win_contract_ok. Qed.
@@ -136,29 +136,91 @@ Theorem C20_win_contract_cut :
   forall (before : fs) (o : op) (last : bytes) (reads : list (list native)),
   op_names_ok o = true -> op_ok before o = true ->
   let after := apply_op before o in
-  (forall p, isdir (abspath root p) = fs_isdir after p) ->
+  (forall p, In p (op_paths o) -> isdir (abspath root p) = fs_isdir after p) ->
   concat reads = map render_native (win_kernel o) ->
   queue_events_seq isdir walk recursive root last reads
   = (map (render root) (win_contract sub recursive after o), state_after root last o, false).
 Proof. exact win_contract_cut_ok. Qed.
 Print Assumptions C20_win_contract_cut.
 
-(* Replay, full statement: one operation per batch, the walked tree [sub] lists what lies below the
-   target (as a set: os.walk order versus the tree's own order); replaying the contract on the view
-   of the tree before gives the view after.  Holds for every operation of the alphabet, directories
-   with content included: the chain of exact re-keys (the moved event and one synthetic moved event
-   per descendant) equals the prefix rename because no destination d/r is a source s/r' (s and d are
-   incomparable: d is not below s, and s is not below the fresh name d). *)
-Definition C20_win_replay_full : Prop :=
+(* Replay, one operation: the walked tree [sub] lists what lies below the target (as a set: os.walk
+   order versus the tree's own order); replaying the contract on the view of the tree before gives the
+   view after.  Holds for every operation of the alphabet, directories with content included: the
+   chain of exact re-keys (the moved event and one synthetic moved event per descendant) equals the
+   prefix rename because no destination d/r is a source s/r' (s and d are incomparable: d is not
+   below s, and s is not below the fresh name d). *)
+Theorem C20_win_replay :
   forall (sub : path -> tree) (before : fs) (o : op),
   wf_fs before -> op_names_ok o = true -> op_ok before o = true ->
   let after := apply_op before o in
   Permutation (map (fun x => (snd x, fst x)) (desc [] (sub (target o)))) (below after (target o)) ->
   Permutation (replay (view_of before) (win_contract sub true after o)) (view_of after).
-
-Theorem C20_win_replay : C20_win_replay_full.
 Proof. exact win_replay_full_wf. Qed.
 Print Assumptions C20_win_replay.
+
+(* THE WINDOWS REPLAY LAW IN FULL.  For every history [ops] of the platform fs model executable from a
+   well-formed tree [f], rendered by the simulator into one notification stream [win_stream ops], and
+   for EVERY cut of that stream into reads (inside a rename pair, across operations, one read for
+   everything ...), a recursive watch, any pending old name [last]: the calls of
+   WindowsApiEmitter.queue_events, one per read, queue in total exactly the rendered contracts, and
+   replaying that normalized stream on the view of [f] reproduces the final tree.
+   Hypothesis [win_stream_ok] (WinReplayProofs.v) - it is about the file system, not about the cuts:
+   each operation succeeds in the tree of its moment, and whenever the emitter gets to an operation's
+   notifications os.path.isdir answers, on the paths that operation names, as right after the
+   operation, and os.walk lists below its target what was there right after it (the pacing condition
+   of C01; with one operation per read it says only that the oracles tell the truth).
+   How F11 enters: the views replayed here are sets of (path, kind); a deleted event removes a path
+   whatever its File/Dir flavour, so the law holds although every removed directory is reported as
+   FileDeletedEvent.  The flavour law is stated separately, up to exactly that exception:
+   C20_win_flavour_F11 below; the exception is real: C20_win_removed_flavour_refuted. *)
+Theorem C20_win_replay_full :
+  forall (isdir : bytes -> bool) (walk : bytes -> tree) (sub : path -> tree) (root : bytes)
+         (ops : list op) (f : fs) (last : bytes) (reads : list (list native)),
+  root <> [] -> last_is_sep root = false ->
+  (forall p, walk (abspath root p) = sub p) -> (forall p, wf_tree (sub p) = true) ->
+  wf_fs f -> win_stream_ok isdir sub root f ops ->
+  concat reads = win_stream ops ->
+  let es := win_contracts sub true f ops in
+  fst (fst (queue_events_seq isdir walk true root last reads)) = map (render root) es /\
+  Permutation (replay (view_of f) es) (view_of (fold_left apply_op ops f)).
+Proof. exact win_replay_stream_full. Qed.
+Print Assumptions C20_win_replay_full.
+
+(* Flavour, up to F11: in the contract of every operation every event carries the kind of the entry it
+   names (created / modified / moved-to: in the tree after; deleted: in the tree before), the synthetic
+   ones included - with exactly one exception: a deleted event of the File flavour for what was a
+   directory (rmdir, directory moved out).  That exception is finding F11 (known_findings.json): the
+   API does not say what was removed and the entry can no longer be stat'ed. *)
+Theorem C20_win_flavour_F11 :
+  forall (sub : path -> tree) (before : fs) (o : op),
+  closed_fs before -> op_names_ok o = true -> op_ok before o = true ->
+  let after := apply_op before o in
+  covers sub after o ->
+  forall e, In e (win_contract sub true after o) -> flavour_ok before after e \/ f11_exception before e.
+Proof. exact win_flavour. Qed.
+Print Assumptions C20_win_flavour_F11.
+
+(* Non-vacuity of [win_stream_ok] with a cut across operations: mkdir a; mv b c (b a file), read as
+   [ADDED a; RENAMED_OLD b] [RENAMED_NEW c] and processed when both operations are done (the oracle is
+   the final tree: a is a directory, c a file, b is gone). *)
+Example C20_win_replay_full_nonvacuous :
+  let c_ : bytes := [99%N] in
+  let f := [Entry [nb] KFile 7%N] in
+  let ops := [OMkdir [na] 5%N; ORename [nb] [c_]] in
+  let isdir (p : bytes) := beqb p (abspath r_ [na]) in
+  let sub (_ : path) := Node [] [] in
+  win_stream_ok isdir sub r_ f ops /\
+  queue_events_seq isdir (fun _ => Node [] []) true r_ []
+    [firstn 2 (win_stream ops); skipn 2 (win_stream ops)]
+  = (map (render r_) [ACreated KDir [na] false; AMoved KFile [nb] [c_] false], abspath r_ [nb], false).
+Proof.
+  split; [|vm_compute; reflexivity].
+  cbn [win_stream_ok]. repeat split; try reflexivity.
+  - intros p [<-|[]]. reflexivity.
+  - intros _. vm_compute. constructor.
+  - intros p [<-|[<-|[]]]; reflexivity.
+  - intros _. vm_compute. constructor.
+Qed.
 
 (* Histories of any length, one operation per batch ([subs] = what os.walk listed at each step, each
    covering the target of its operation), from any well-formed tree: replaying the whole stream
@@ -280,7 +342,7 @@ Print Assumptions C20_fsevents_flat_strict_refuted.
    both parents modified + one synthetic moved event per descendant; move in = created + parent
    modified + synthetic created per descendant; move out = deleted + parent modified), after the
    non-recursive filter, and does not request a stop. *)
-Definition C20_fsevents_contract_full : Prop :=
+Theorem C20_fsevents_contract_full :
   forall stat_ino walk sub recursive root view before o,
   root <> [] -> last_is_sep root = false ->
   (forall p, walk (abspath root p) = sub p) -> (forall p, wf_tree (sub p) = true) ->
@@ -291,21 +353,62 @@ Definition C20_fsevents_contract_full : Prop :=
   exists v,
     queue_events stat_ino walk recursive root view (map (frender root) (fsevents_kernel before o))
     = Some (filter (keep recursive root) (map (render root) (fse_contract sub before after o)), v, false).
-
-Theorem C20_fsevents_contract : C20_fsevents_contract_full.
 Proof. exact fse_contract_full_wf. Qed.
-Print Assumptions C20_fsevents_contract.
+Print Assumptions C20_fsevents_contract_full.
 
-Definition C20_fsevents_replay_full : Prop :=
+(* Replay, one operation: replaying the contract of any operation reproduces the tree. *)
+Theorem C20_fsevents_replay :
   forall (sub : path -> tree) (before : fs) (o : op),
   wf_fs before -> op_names_ok o = true -> op_ok before o = true ->
   let after := apply_op before o in
   Permutation (map (fun x => (snd x, fst x)) (desc [] (sub (target o)))) (below after (target o)) ->
   Permutation (replay (view_of before) (fse_contract sub before after o)) (view_of after).
-
-Theorem C20_fsevents_replay : C20_fsevents_replay_full.
 Proof. exact fse_replay_full_wf. Qed.
 Print Assumptions C20_fsevents_replay.
+
+(* THE FSEVENTS REPLAY LAW, for every history in which the findings F12a-e cannot occur.  A history is
+   a list of batches; a batch is a list of operations delivered to ONE call of queue_events (recursive
+   watch), coalesced by FSEvents or not, processed with the file system of that moment ([boracle]); the
+   _fs_view is carried from call to call.  Hypotheses per batch ([batches_ok], FsBatchProofs.v):
+     - [one_rename_per_item] (executable): no item is the subject of two rename-flagged operations
+       (rename inside the tree, move in, move out) inside the batch - this is what F12a, F12b, F12c
+       violate; it gives the emitter's look-ahead no wrong partner;
+     - [batch_sem_ok]: every operation succeeds; at processing time os.stat still finds a moved-in item
+       at its path / does not find a moved-out one, and os.walk lists below a renamed or arrived
+       directory what was below it right after that operation (violated by F12d: an ancestor renamed
+       later in the batch); a created item has an inode number never seen before;
+     - a coalesced batch has no two events for the same item at the same path ([distinct_itemsb],
+       executable) - F12e is the hoisting that coalescing otherwise causes.
+   Then over the whole history the emitter queues exactly the rendered contracts of all operations,
+   and replaying them reproduces the final tree. *)
+Theorem C20_fsevents_replay_full :
+  forall root (bs : list batch) seen view f,
+  root <> [] -> last_is_sep root = false -> wf_fs f ->
+  batches_ok root bs seen f -> (forall j, mem j view = true -> In j seen) ->
+  exists v, batches_run root bs view f = Some (map (render root) (batches_contracts bs f), v) /\
+            Permutation (replay (view_of f) (batches_contracts bs f)) (view_of (batches_final bs f)).
+Proof. exact fse_batches_wf. Qed.
+Print Assumptions C20_fsevents_replay_full.
+
+(* Non-vacuity: two batches - {touch a; mv b c} delivered coalesced, then {mv c <outside>}. *)
+Example C20_fsevents_replay_full_nonvacuous :
+  let f := [Entry [nb] KFile 7%N] in
+  let st (l : list (path * N)) (p : bytes) :=
+      match find (fun x => beqb (abspath r_ (fst x)) p) l with Some x => Some (snd x) | None => None end in
+  let e := Node [] [] in
+  let bs : list batch :=
+      [(BOracle (st [([na], 5%N); ([nc], 7%N)]) (fun _ => e) (fun _ => e), [OCreate [na] 5%N; ORename [nb] [nc]], true);
+       (BOracle (st [([na], 5%N)]) (fun _ => e) (fun _ => e), [OMoveOut [nc]], false)] in
+  one_rename_per_item f [OCreate [na] 5%N; ORename [nb] [nc]] = true /\
+  batches_ok r_ bs [7%N] f /\
+  batches_run r_ bs [] f = Some (map (render r_) (batches_contracts bs f), [5%N]) /\
+  view_of (batches_final bs f) = [([na], KFile)].
+Proof.
+  split; [reflexivity|]. split; [|split; vm_compute; reflexivity].
+  cbn [batches_ok fst snd]. repeat split; try reflexivity; try exact I.
+  all: try (intros i [<-|[]] [H|[]]; discriminate); try (intros H; discriminate); try (intros i []);
+    try (intros _; vm_compute; constructor).
+Qed.
 
 (* Histories of any length, one operation per batch, no coalescing, recursive watch, from any
    well-formed tree and any _fs_view within the inodes seen so far: the events the emitter queues over
@@ -406,6 +509,24 @@ Print Assumptions C20_fsevents_batch_partial.
 Theorem C20_fsevents_coalesce_distinct : forall l, distinct_items l -> coalesce_all l = l.
 Proof. exact coalesce_distinct. Qed.
 Print Assumptions C20_fsevents_coalesce_distinct.
+
+(* One batch, with the executable hypothesis spelled out: [one_rename_per_item] replaces the look-ahead
+   clause of [batch_ok]; the batch may be coalesced when no two of its events share (path, inode). *)
+Theorem C20_fsevents_batched :
+  forall stat_ino walk sub root ops seen view f natives,
+  root <> [] -> last_is_sep root = false ->
+  (forall p, walk (abspath root p) = sub p) -> (forall p, wf_tree (sub p) = true) ->
+  wf_fs f ->
+  one_rename_per_item f ops = true ->
+  batch_sem_ok stat_ino sub root seen f ops ->
+  (forall j, mem j view = true -> In j seen) ->
+  natives = batch_natives root f ops \/
+  (distinct_itemsb (batch_natives root f ops) = true /\ natives = coalesce_all (batch_natives root f ops)) ->
+  exists v, queue_events stat_ino walk true root view natives
+            = Some (map (render root) (batch_contracts sub f ops), v, false) /\
+            Permutation (replay (view_of f) (batch_contracts sub f ops)) (view_of (fold_left apply_op ops f)).
+Proof. exact fse_batched_one_rename. Qed.
+Print Assumptions C20_fsevents_batched.
 
 (* Full law for batches of several operations, coalesced or not, processed when all operations are
    done (the oracles answer for the final tree: os.stat, os.walk covering every directory): for every
